@@ -42,6 +42,7 @@ def run(prog, R, tier="quick", only_rule=None):
     from rules.props import c03
     c03.c03f(prog, R, rid="C12.g")
     c03.c03k(prog, R, rid="C12.h")
+    c12i(prog, R)
 
 
 def arith_skeleton(body, drop_methods=()):
@@ -278,3 +279,40 @@ def c12e(prog, R):
         ok = any("(block_handle.end_key() > &key)" in s.guard_texts() for s in sites)
         r.check(ok, "Table::point_read|stops after a block whose end key > key", "early-out condition changed", "", str([s.guard_texts()[-1:] for s in sites]))
     r.floor(3)
+
+
+def c12i(prog, R, rid="C12.i"):
+    """Partitioned index / filter writers buffer their partitions and record for each one a handle (offset relative to the
+    start of the partition area, size).  The offset is the running position *before* the partition, and the position advances
+    by the partition's size afterwards - on every partition, not only the first two."""
+    from rules.engine import origins, must_pass
+    from rules.props.c07 import store_blocks
+    r = R.rule(rid, "partition handles = (running offset before the partition, its size); the offset advances by that size", "D,P")
+    for name, ty in (("table::writer::index::partitioned::PartitionedIndexWriter::cut_index_block", "table::writer::index::partitioned::PartitionedIndexWriter"),
+                     ("table::writer::filter::partitioned::PartitionedFilterWriter::spill_filter_partition", "table::writer::filter::partitioned::PartitionedFilterWriter")):
+        f = prog.fn(name)
+        if f is None:
+            r.anchor_missing(name)
+            continue
+        bh = [c for c in f.calls if c.sres.endswith("BlockHandle::new") and not c.sres.endswith("KeyedBlockHandle::new")]
+        wr = [c for c in f.calls if c.sres.endswith("Block::write_into")]
+        ok = bool(bh) and bool(wr)
+        detail = ""
+        for c in bh:
+            off = origins(f, c.args[0])
+            size = origins(f, c.args[1])
+            detail = "offset<-%s size<-%s" % ([repr(o) for o in off], [repr(o) for o in size])
+            flat = [x for a in off for x in ([a] if a.kind != "agg" else [y for sub in a.extra.get("ops", []) for y in origins(f, sub)])]
+            # (flow-insensitive def-use also sees the field's own later `+=`)
+            ok = ok and any(o.kind == "param" and o.what == 1 and o.path[-1:] == ("relative_file_pos",) for o in flat) and \
+                all((o.kind == "param" and o.path[-1:] == ("relative_file_pos",)) or (o.kind == "bin" and str(o.what).startswith("Add")) for o in flat)
+            from rules.engine import origin_callees
+            ok = ok and any(x.endswith("Block::write_into") for x in origin_callees(f, c.args[1], depth=6))
+        r.check(ok, "%s|handle = (self.relative_file_pos, bytes written)" % name,
+                "a partition handle is not (running offset, size of the partition just written): later partitions are looked up at the "
+                "wrong place", f.where(), detail)
+        sb = store_blocks(f, ".relative_file_pos:%s" % ty)
+        adv = bool(sb) and bool(bh) and must_pass(f, sb, from_bbs=[bh[0].bb]) and not any(f.dominates(b, bh[0].bb) and b != bh[0].bb for b in sb)
+        r.check(adv, "%s|relative_file_pos advanced after the handle was taken, on every success path" % name,
+                "the running offset is not advanced after each partition (or is advanced before the handle is built)", f.where())
+    r.floor(4)
